@@ -19,8 +19,9 @@ from harness.par import pmap
 TIERS = {
     "quick": dict(MaxWords=3, Lens={1, 2, 3}, Kinds={"h", "n", "a"}, Widths={0, 1, 2, 3, 4, 5, 6, 8}, Offs={0, 2, 3},
                   Mds={True, False}),
-    "thorough": dict(MaxWords=4, Lens={1, 2, 4}, Kinds={"h", "n", "a"}, Widths={0, 1, 2, 3, 4, 5, 6, 7, 8, 10, 12},
-                     Offs={0, 1, 2, 4}, Mds={True, False}),
+    # (4 words x 9 word types x 8 widths x 3 x 3 offsets x 2 = 1.06 M behaviours; the 2.6 M of the first version needed 11 GB and 3 h)
+    "thorough": dict(MaxWords=4, Lens={1, 2, 4}, Kinds={"h", "n", "a"}, Widths={0, 1, 2, 3, 5, 6, 8, 12},
+                     Offs={0, 2, 3}, Mds={True, False}),
 }
 MODEL_INVS = ["Lossless", "NoEmptyLine", "OneLine", "EscapeExact", "BoundedK", "MaximalK", "Bounded13",
               "Maximal13", "Dump"]
